@@ -8,7 +8,7 @@ TRUST = "trusted: z3 5.1.0, the proxy semantics (re-validated on every run by re
 claim("C01", "model_checking",
       "All feasible paths of the real BatteryDistributionAlgorithm.distribute_power (and BatteryManager._distribute_power for the manager instances) are explored with every "
       "capacity, SoC, limit, bound and the request symbolic; on each path z3 proves set-points + remainder = request (1e-6 relative), sign of every set-point and of the remainder. "
-      "Exhaustive for 1 group (1x1, 1x2, 2x1 shapes, both directions) and 2 groups of 1x1; larger shapes budgeted (stated in evidence).", TRUST, "DESIGN.md section 4 C01")
+      "Exhaustive for 1 group (1x1 incl. exponents 0 and 2, 1x2, 2x1 shapes, both directions) and 2 groups of 1x1; 3 groups (concrete SoC data, which makes every share linear) and 2 groups x 2 inverters are budgeted (stated in evidence).", TRUST, "DESIGN.md section 4 C01")
 claim("C02", "model_checking",
       "Same exploration as C01 with the bound assertions: each inverter set-point is 0 or inside [exclusion, inclusion] (clipped by the battery), each group total is 0 or inside the "
       "aggregated battery bounds, a group without SoC headroom gets 0; boundary requests (exactly the advertised exclusion / inclusion bound) as dedicated instances. "
@@ -26,7 +26,7 @@ claim("C05", "translation_validation", TV + ". Strings (Tokenizer + shunting yar
       "larger ones by operator subsets; reference = Python's own evaluation of the same expression.", TRUST, "DESIGN.md section 4 C05")
 claim("C06", "model_checking",
       "The real FormulaEvaluator/FormulaEngine run on a virtual-time event loop with symbolic per-stream first timestamps (proxy datetimes used as the evaluator's own dict keys) and "
-      "symbolic values; the output value term reveals which (stream, sample) pairs were combined; z3 proves timestamp and value of every output for every offset vector under 4 delivery modes.",
+      "symbolic values; the output value term reveals which (stream, sample) pairs were combined; z3 proves timestamp and value of every output for every offset vector under 4 delivery modes; the same for FormulaEngine3Phase over three per-phase engines.",
       TRUST + "; other interleavings are covered by a Kahn-network argument that is stated, not checked", "DESIGN.md section 4 C06")
 claim("C07", "model_checking",
       "Resampler.__init__/_calculate_window_end executed with symbolic now, align_to and period (non-linear integer arithmetic): alignment, range and the hand-set timer start are proved; "
@@ -38,13 +38,13 @@ claim("C08", "model_checking",
       TRUST, "DESIGN.md section 4 C08")
 claim("C09", "model_checking",
       "The real OrderedRingBuffer (list container) is executed on symbolic update timestamps (microsecond resolution, any order) and symbolic datetime / index queries and compared with an "
-      "executable reference map slot -> value after every update: acceptance, count_valid, gaps, oldest/newest, count_covered and every element of every window.", TRUST, "DESIGN.md section 4 C09")
+      "executable reference map slot -> value after every update: acceptance, count_valid, gaps, oldest/newest, count_covered, every element of every window and MovingWindow.at/[]; deeper histories (capacity 4, 4 updates) with update timestamps enumerated on the slot grid.", TRUST, "DESIGN.md section 4 C09")
 claim("C10", "model_checking",
       "Actor._run_loop is driven by hand at every suspension point with a symbolic action and a symbolic restart limit (z3 arithmetic decides restart/no restart); BackgroundService.stop/wait/cancel "
       "and run() are executed with real tasks on a virtual-time loop over symbolic task behaviours and operations. The solver's role is mostly the case split (stated).", TRUST, "DESIGN.md section 4 C10")
 claim("C11", "model_checking",
       "The real PowerManagingActor handlers (_send_updated_target_power, _send_reports, bounds update, PartialFailure resend, expiry) are applied for every event sequence of bounded length with "
-      "all powers and bounds symbolic; after every request z3 proves request = regular target + operating-point target as reported and request inside the latest bounds.", TRUST, "DESIGN.md section 4 C11")
+      "all powers and bounds symbolic, both by calling the handlers and by feeding the real _run select loop / _bounds_tracker task over real channels (late PartialFailure, expiry by the real timer); after every request z3 proves request = regular target + operating-point target as reported and request inside the latest bounds.", TRUST, "DESIGN.md section 4 C11")
 claim("C12", "translation_validation", TV + ". All 2609 topologies with <=7 components from a grammar (quick; <=8 thorough) x 3 evaluation modes (no fallback, fallback configured with valid primaries, primaries replaced by "
       "their generated fallback formulas); 8 identities per topology over symbolic device powers and unmetered loads. One open known finding (consumer formula without grid meter and a mixed meter) "
       "is excluded by a topology predicate.", TRUST, "DESIGN.md section 4 C12")
@@ -56,16 +56,16 @@ claim("C14", "model_checking",
       TRUST, "DESIGN.md section 4 C14")
 claim("C15", "model_checking",
       "BatteryManager._distribute_power/_set_distributed_power/_parse_result and PVManager.distribute_power/_set_api_power run on a virtual-time loop with symbolic set-points/bounds/request and a symbolic "
-      "5-way outcome per set_power call (incl. timeout); z3 proves succeeded + failed + excess = request, failed_power = sum of failed set-points, component sets, and calls = distribution.", TRUST, "DESIGN.md section 4 C15")
+      "6-way outcome per set_power call (incl. slow success and timeout); z3 proves succeeded + failed + excess = request, failed_power = sum of failed set-points, component sets, and calls = distribution.", TRUST, "DESIGN.md section 4 C15")
 claim("C16", "model_checking",
       "The real BatteryStatusTracker._run dispatch loop and BlockingStatus are driven through a stand-in select/Timer with a symbolic clock: for every sequence of <=4 events (messages with symbolic age and fault, "
-      "timers, set-power results) the sent status equals a reference (never usable while a disqualifying fact holds; exponential blocking; notify on change only).", TRUST + "; stand-in timer contract stated in evidence", "DESIGN.md section 4 C16")
+      "timers, set-power results) the sent status equals a reference (never usable while a disqualifying fact holds; exponential blocking; notify on change only); ComponentPoolStatusTracker._update_status over every sequence of 4 notifications.", TRUST + "; stand-in timer contract stated in evidence", "DESIGN.md section 4 C16")
 claim("C17", "model_checking",
       "One symbolic data set is given to both real code paths (PowerBoundsCalculator.calculate and BatteryManager._get_bounds/_check_request): z3 proves that every power admitted by the advertised bounds is "
       "accepted for both adjust_power settings, that inclusion bounds are identical and that an admitted power is at least the sum of the groups' minimum powers. 5 topologies exhaustive.", TRUST, "DESIGN.md section 4 C17")
 claim("C18", "model_checking",
       "SoCCalculator.calculate / CapacityCalculator.calculate on symbolic capacities, SoCs, limits, missing-metric patterns and working subsets: None-ness, range, weighted mean, capacity sum, and (pairs of runs) "
-      "monotonicity and scale invariance are proved over non-linear real arithmetic.", TRUST, "DESIGN.md section 4 C18")
+      "monotonicity and scale invariance are proved over non-linear real arithmetic; plus the fetcher's NaN dropping and SendOnUpdate's cache eviction.", TRUST, "DESIGN.md section 4 C18")
 claim("C19", "model_checking",
       "The real MetricFetcher inside a real formula on a virtual-time loop, with a fake FallbackMetricFetcher subclass: validity of every primary/fallback sample, per-round delivery order and the point at which "
-      "the primary stream is closed are symbolic; every output is compared with the documented switching rule; a formula with a second plain term exposes misalignment.", TRUST, "DESIGN.md section 4 C19")
+      "the primary stream is closed are symbolic; every output is compared with the documented switching rule; a formula with a second plain term exposes misalignment; delivery lock-step, fallback 1-2 rounds early, in pairs, or as an initial burst; also with the real FallbackFormulaMetricFetcher over a real fallback engine.", TRUST, "DESIGN.md section 4 C19")
